@@ -37,6 +37,9 @@ func lateJob(js *JobSpec) bool {
 	}
 	switch js.Harness {
 	case "H_C02", "H_C03", "H_C05", "H_C13", "H_C04", "H_C16", "H_C12_closure", "H_C14_eol", "H_C14_final", "H_C09_quote", "H_C09_quote_bare", "H_C19":
+		if js.Params[0] == 1 && js.Params[1] == 41 {
+			return true // TL[41] is '<' + four free bytes: as expensive as F(4)
+		}
 		return js.Params[0] == 0 && js.Params[1] >= 4
 	case "H_C01_F", "H_C07", "H_C10", "H_C04_format", "H_C19_format", "H_C20_total":
 		return js.Params[0] >= 4 && js.Params[0] < 100
